@@ -95,6 +95,7 @@ int __real_ftruncate64(int, off64_t);
 int __real_close(int);
 
 bool c15_ops_heap_fail(size_t n);
+bool c15_ops_vm_fail();
 void* __wrap_malloc(size_t n) {
   if (must_fail(kHeap) || c15_ops_heap_fail(n)) { errno = ENOMEM; return nullptr; }
   void* p = __real_malloc(n);
@@ -112,7 +113,7 @@ void __wrap_free(void* p) {
   __real_free(p);
 }
 void* __wrap_mmap(void* a, size_t n, int prot, int flags, int fd, off_t off) {
-  if (must_fail(kVm)) { errno = ENOMEM; return MAP_FAILED; }
+  if (must_fail(kVm) || c15_ops_vm_fail()) { errno = ENOMEM; return MAP_FAILED; }
   void* p = __real_mmap(a, n, prot, flags, fd, off);
   if (g_track && p != MAP_FAILED) (*g_live_map)[p] = n;
   return p;
@@ -129,17 +130,17 @@ int __wrap_mprotect(void* p, size_t n, int prot) {
   return __real_mprotect(p, n, prot);
 }
 int __wrap_shm_open(const char* name, int fl, mode_t m) {
-  if (must_fail(kVm)) { errno = ENFILE; return -1; }
+  if (must_fail(kVm) || c15_ops_vm_fail()) { errno = ENFILE; return -1; }
   int fd = __real_shm_open(name, fl, m);
   if (g_track && fd >= 0) g_live_fd->insert(fd);
   return fd;
 }
 int __wrap_ftruncate(int fd, off_t n) {
-  if (must_fail(kVm)) { errno = ENOSPC; return -1; }
+  if (must_fail(kVm) || c15_ops_vm_fail()) { errno = ENOSPC; return -1; }
   return __real_ftruncate(fd, n);
 }
 int __wrap_ftruncate64(int fd, off64_t n) {
-  if (must_fail(kVm)) { errno = ENOSPC; return -1; }
+  if (must_fail(kVm) || c15_ops_vm_fail()) { errno = ENOSPC; return -1; }
   return __real_ftruncate64(fd, n);
 }
 // `memfd_create` is called through syscall(): a variadic wrapper that forwards six register arguments (x86-64 / AArch64
@@ -154,7 +155,7 @@ long __wrap_syscall(long n, ...) {
   va_end(ap);
 #ifdef __NR_memfd_create
   if (n == __NR_memfd_create) {
-    if (must_fail(kVm)) { errno = ENFILE; return -1; }
+    if (must_fail(kVm) || c15_ops_vm_fail()) { errno = ENFILE; return -1; }
     long fd = __real_syscall(n, a[0], a[1], a[2], a[3], a[4], a[5]);
     if (g_track && fd >= 0) g_live_fd->insert(int(fd));
     return fd;
@@ -1027,6 +1028,12 @@ static bool ops_arena_pred() {
   uint64_t i = g_op_cnt++;
   return i < 64 && ((g_op_mask >> i) & 1);
 }
+static bool g_op_vm = false;
+extern "C" bool c15_ops_vm_fail() {
+  if (!g_op_armed || !g_op_vm) return false;
+  uint64_t i = g_op_cnt++;
+  return i < 64 && ((g_op_mask >> i) & 1);
+}
 extern "C" bool c15_ops_heap_fail(size_t n) {
   if (!g_op_armed || !g_op_heap) return false;
   if (n + 32 >= 8192 && ((n + 32) & (n + 31)) == 0) return false;   // a block of the CodeHolder arena, not a request of the operation
@@ -1459,6 +1466,55 @@ static std::string c_step(const std::vector<std::string>& w) {
   else return "bad-op";
   return ename(e) + " n=" + std::to_string(g_op_cnt) + " | " + c_state();
 }
+// PART 5: JitAllocator::alloc / release with a per-call fault mask (model: lean/AsmjitVerif/Model/FaultJit.lean on C09's allocator)
+//   j reset <options> | j <mask> alloc <size> | j 0 release <span ordinal>
+//       -> <Error|ok> n=<requests: mmap / memfd_create / ftruncate / malloc of the block record> | blocks=.. allocs=.. used=.. reserved=..
+struct JCtx {
+  std::unique_ptr<JitAllocator> a;
+  std::vector<void*> spans;
+};
+static std::unique_ptr<JCtx> g_j;
+
+static std::string j_state() {
+  JitAllocator::Statistics st = g_j->a->statistics();
+  return "blocks=" + std::to_string(st.block_count()) + " allocs=" + std::to_string(st.allocation_count()) + " used=" +
+         std::to_string(st.used_size()) + " reserved=" + std::to_string(st.reserved_size());
+}
+
+static std::string j_step(const std::vector<std::string>& w) {
+  if (w.size() < 3) return "bad-op";
+  uint64_t u0 = 0, mask = 0;
+  if (w[1] == "reset") {
+    if (!vh::parse_u64(w[2], u0)) return "bad-op";
+    g_j.reset();
+    g_j.reset(new JCtx());
+    JitAllocator::CreateParams p{};
+    p.options = JitAllocatorOptions(uint32_t(u0));
+    p.block_size = 65536;
+    g_j->a.reset(new JitAllocator(&p));
+    return "ok n=0 | " + j_state();
+  }
+  if (!g_j || w.size() < 4 || !vh::parse_hex(w[1], mask) || !vh::parse_u64(w[3], u0)) return "bad-op";
+  g_op_mask = mask; g_op_cnt = 0; g_op_heap = true; g_op_vm = true;
+  Error e = Error::kOk;
+  if (w[2] == "alloc") {
+    JitAllocator::Span span;
+    g_op_armed = true;
+    e = g_j->a->alloc(Out(span), size_t(u0));
+    g_op_armed = false;
+    if (e == Error::kOk) g_j->spans.push_back(span.rx());
+  }
+  else if (w[2] == "release") {
+    if (u0 >= g_j->spans.size() || !g_j->spans[u0]) { g_op_vm = false; return "precond"; }
+    e = g_j->a->release(g_j->spans[u0]);
+    g_j->spans[u0] = nullptr;
+  }
+  else { g_op_vm = false; return "bad-op"; }
+  g_op_vm = false;
+  // which errno-derived error a failed mmap / memfd_create / ftruncate is turned into is not modelled: `fail:<Error>`
+  std::string en = (e != Error::kOk && mask != 0) ? "fail:" + ename(e) : ename(e);
+  return en + " n=" + std::to_string(g_op_cnt) + " | " + j_state();
+}
 // OPS-END
 
 static void on_cpu_timeout(int) { static const char m[] = "CPU-TIMEOUT (900 s of CPU time)\n"; (void)!write(2, m, sizeof(m) - 1); _exit(97); }
@@ -1487,6 +1543,7 @@ int main() {
     if (w[0] == "fault" || w[0] == "multi") return run_fault(w);
     if (w[0] == "b") return b_step(w);
     if (w[0] == "c") return c_step(w);
+    if (w[0] == "j") return j_step(w);
     return ops_step(w);
   });
 }
